@@ -54,7 +54,7 @@ def run(ctx):
     required = ["strict_refuses", "strict_refuses_with_reason", "strict_decision_table", "strict_running", "lenient_accepts", "moved_keys_refused",
                 "cli_secrets_refused", "outbound_https_only", "lenient_follows_http", "tls_off_network_disabled", "refusals_independent",
                 "fact_default_strict", "fact_parse_public_url", "fact_reserved_lists", "fact_moved_keys", "fact_secret_flag_rule",
-                "fact_engine_conditions", "fact_http_client", "fact_iam_strictmode", "fact_redirect_check_reads_global", "early_client_strict", "iam_endpoints_strict", "iam_endpoint_witness", "fact_engine_order", "fact_secret_flags", "fact_flags_resolved", "fact_redacted_keys"]
+                "fact_engine_conditions", "fact_http_client", "fact_iam_strictmode", "fact_outbound_inventory", "fact_iam_call_sites", "fact_misc_sites", "fact_redirect_check_reads_global", "early_client_strict", "iam_endpoints_strict", "iam_endpoint_witness", "fact_engine_order", "fact_secret_flags", "fact_flags_resolved", "fact_redacted_keys"]
     for r in required:
         if not any(t.endswith("Props." + r) for t in thms):
             ctx.oblige("thm-present:" + r, False, "theorem missing or its module does not build")
@@ -96,6 +96,7 @@ def run(ctx):
 
     # ---------- direct property oracle on the implementation's own outputs
     best, viol = {}, 0
+    feats_default = [0]
     tags, outcomes = Counter(), Counter()
     distinct = set()
     product_rows = set()
@@ -179,6 +180,8 @@ def run(ctx):
             row = (strict, op.get("url", ""), op.get("tls", False), tuple(op.get("methods", [])), op.get("crypto", ""), op.get("sql", False), op.get("dummy", False), op.get("irma"))
             if op.get("tag") == "product":
                 product_rows.add(row)
+            if op.get("strictunset"):
+                feats_default[0] += 1
             distinct.add(("sys",) + row)
             ins = insecure_settings(op)
             outcomes["sys " + ("strict " if strict else "lenient ") + (line.split()[1] if line.startswith("sys refuse") else "ok")] += 1
@@ -188,10 +191,20 @@ def run(ctx):
                     violation("strict-accepted:" + (ins[0] if ins else "malformed"), f"strict node started with insecure settings {ins}: {line}", opl)
                 if line.startswith("sys ok"):
                     pr = dict(kv.split("=", 1) for kv in line.split()[2:])
+                    if pr.get("dummy") != "absent":
+                        violation("strict-dummy-means-registered", "started strict node offers the dummy (test-only) signing means", opl)
+                    if pr.get("remotectx") != "refused":
+                        violation("strict-unlisted-remote-context", "started strict node tried to fetch a JSON-LD context that is not on the allow-list", opl)
+                    if pr.get("clientstrict") != "true":
+                        violation("strict-client-flag-off", "started strict node: http/client.StrictMode is false", opl)
                     if pr.get("earlyclient") != "refused":
                         violation("outbound-non-https:client-built-before-configure", "started strict node: a client built before the HTTP engine was configured followed an https -> http redirect", opl)
                     if pr.get("iamhttp") == "sent":
                         violation("outbound-non-https:iam", "started strict node: the IAM client sent a request to a plain-HTTP endpoint", opl)
+                    elif pr.get("iamvc") == "sent":
+                        violation("outbound-non-https:iam-credential-endpoint", "started strict node: credential request sent to a plain-HTTP endpoint", opl)
+                    elif pr.get("iamsites") != "same":
+                        violation("strict-endpoint-check-disabled:iam-site", f"started strict node: IAM call sites that do not refuse a plain-http endpoint as endpoint: {pr.get('iamsites')}", opl)
                     elif pr.get("iamhttp") != "refused-endpoint" or pr.get("iamip") != "refused-endpoint":
                         violation("strict-endpoint-check-disabled:iam", f"started strict node: the IAM client's endpoint check runs non-strict (http endpoint: {pr.get('iamhttp')}, https://127.0.0.1 endpoint: {pr.get('iamip')})", opl)
                 if not ins and not malformed and not line.startswith("sys ok dummy=absent remotectx=refused clientstrict=true "):
@@ -202,7 +215,7 @@ def run(ctx):
                     if not line.endswith(":" + want):
                         violation("strict-refused-for-other-reason:" + ins[0], f"only insecure setting {ins[0]} but the node says {line}", opl)
             elif not malformed:
-                want = f"sys ok dummy={'registered' if op.get('dummy') else 'absent'} remotectx=attempted clientstrict=false earlyclient=followed iamhttp=sent iamip=sent"
+                want = f"sys ok dummy={'registered' if op.get('dummy') else 'absent'} remotectx=attempted clientstrict=false earlyclient=followed iamhttp=sent iamip=sent iamsites=same iamvc=sent"
                 if line != want:
                     violation("lenient-refused:" + (line.split()[1][:40] if line.startswith("sys refuse") else "probe"), f"lenient node with settings {ins}: {line} (expected {want})", opl)
         elif kind == "do":
@@ -225,6 +238,7 @@ def run(ctx):
         ff = facts.get("registeredFlags", [])
         ctx.oblige("facts:registered-flags=serverConfigFlags()", sorted(ff) == sorted(set(flag_names)),
                    f"only in facts: {sorted(set(ff) - set(flag_names))[:6]}; only in the binary: {sorted(set(flag_names) - set(ff))[:6]}")
+        ctx.oblige("default-strict-rows-run", feats_default[0] >= 8, f"{feats_default[0]} configurations without a strictmode key")
         ctx.oblige("exhaustive:option-product", len(product_rows) == PRODUCT_SIZE, f"{len(product_rows)} of {PRODUCT_SIZE} rows of the option product were run")
 
     if bad:
